@@ -41,6 +41,7 @@ _BASE = {
     "pyobj": T.PYOBJ,
     "none": T.NONE,
     "VSet": T.VSET,
+    "cls": T.CLS,
     "OSet": T.OSET,
     "RKey": T.RKEY,
 }
@@ -136,6 +137,9 @@ class Contract:
         self.invariants = {}  # loop id -> [(name, expr)]
         self.ghost_sets = []  # (objexpr, field, expr)
         self.after_loop = {}  # loop id -> [(name, expr)] asserted (checked, then assumed) at the loop's normal exit
+        self.uses = {}  # callee target -> clause names assumed at call sites (dropping hypotheses is sound)
+        self.allocates = []  # classes of which the function may allocate new objects
+        self.comp_elt = None  # element type of the list comprehension the function returns
         self.reveals = []  # opaque specification functions whose definition this unit may use
         self.findings = {}  # clause name -> (finding id, case expr)
         self.assume_only = False  # external/trusted contract: never verified
@@ -205,6 +209,13 @@ class Contract:
                 self.assume_only = True
                 if a:
                     self.notes.append(a[0].value)
+            elif fn == "uses":
+                # at this function's call sites of a[0], only the named postcondition clauses are assumed
+                self.uses[a[0].value] = set(x.value for x in a[1:])
+            elif fn == "allocates":
+                self.allocates.extend(x.value for x in a)
+            elif fn == "comprehension_elt":
+                self.comp_elt = parse_type(a[0].value)
             elif fn == "reveal":
                 self.reveals.extend(x.value for x in a)
             elif fn == "pure":
